@@ -324,6 +324,7 @@ def select__child_path(self: XPathToken, context: ta.ContextType = None) \
         if isinstance(context.root, DocumentNode):
             yield context.root
     elif len(self) == 1:
+        item = context.item
         if isinstance(context.document, DocumentNode):
             context.item = context.document
         elif context.root is None or isinstance(context.root.parent, ElementNode):
@@ -331,6 +332,7 @@ def select__child_path(self: XPathToken, context: ta.ContextType = None) \
         else:
             context.item = context.root  # A fragment or a schema node
         yield from self[0].select(context)
+        context.item = item  # give the focus back to the enclosing expression
     else:
         items: set[ta.ItemType] = set()
         results: list[ta.ItemType] = []
@@ -389,6 +391,7 @@ def select__descendant_path(self: XPathToken, context: ta.ContextType = None) \
         yield from results
 
     else:
+        item = context.item
         if isinstance(context.document, DocumentNode):
             context.item = context.document
         elif context.root is None or isinstance(context.root.parent, ElementNode):
@@ -409,6 +412,7 @@ def select__descendant_path(self: XPathToken, context: ta.ContextType = None) \
                 else:
                     items.add(result)
 
+        context.item = item  # give the focus back to the enclosing expression
         yield from sorted(items, key=node_position)
 
 
